@@ -122,9 +122,36 @@ def gen_topology(rng: Prng, n: int, sort_mode: bool):
     return ids, pids
 
 
-def gen_lines(rng: Prng, tier: str, sort_mode: bool, n_extra: int, encoding: str):
+def align_line_end(lines: list[str], target: int) -> bool:
+    """Insert one padding comment so that some line of the text ends (terminator included) exactly at character
+    offset `target`: a reader that consumes the stream in fixed-size blocks then finds a complete line at the very
+    end of a block (target = block size), or one character short of / beyond it (target = block size -+ 1)."""
+    prefix = 0
+    best = None
+    for j, l in enumerate(lines):
+        if prefix + len(l) + 2 <= target and l.endswith("\n"):
+            best = (j, prefix)
+        prefix += len(l)
+        if prefix > target:
+            break
+    if best is None or prefix <= target:
+        return False
+    j, pre = best
+    pad = target - pre - len(lines[j])
+    if pad < 2 or pad > 4000:
+        return False
+    lines.insert(j, "#" + "p" * (pad - 2) + "\n")
+    assert sum(len(l) for l in lines[: j + 2]) == target
+    return True
+
+
+def gen_lines(rng: Prng, tier: str, sort_mode: bool, n_extra: int, encoding: str, align: dict | None = None):
     big = tier == "thorough" and rng.chance(0.02)
-    if big:
+    if align:
+        n = align["block"] * align["mult"] // 24 + 60  # rows are at least ~14 characters: the text passes the target
+        if sort_mode:
+            n = min(n, 1200)  # the isomorphism oracle is quadratic-ish: keep sorted files below ~30 k characters
+    elif big:
         n = rng.randint(800, 6000)
     else:
         n = rng.choice([1, 1, 2, 3, 3, 5, 8, 13, 30, 80]) if rng.chance(0.8) else rng.randint(1, 400)
@@ -136,6 +163,8 @@ def gen_lines(rng: Prng, tier: str, sort_mode: bool, n_extra: int, encoding: str
     trailing_rows = rng.chance(0.3)
     lines = []
     cpool = COMMENT_POOL_ASCII + (COMMENT_POOL_UNI if encoding in ("utf-8", "utf-16") else COMMENT_POOL_LATIN)
+    if align:
+        cpool = COMMENT_POOL_ASCII  # one character = one byte, so character and byte offsets coincide (utf-8, latin-1)
     n_comments = 0
 
     def eol():
@@ -178,6 +207,8 @@ def gen_lines(rng: Prng, tier: str, sort_mode: bool, n_extra: int, encoding: str
             lines.append(rng.choice(["", " ", "\t", "   "]) + eol())
         if rng.chance(0.05):
             lines.append(comment())
+    if align:
+        align["done"] = align_line_end(lines, align["block"] * align["mult"] + align["delta"])
     if rng.chance(0.3) and lines:
         # last line without terminator
         last = lines[-1]
@@ -255,7 +286,15 @@ def generate(rng: Prng, tier: str) -> dict:
     encoding = w.choice(ENCODINGS)
     n_extra = w.weighted([(0, 7), (1, 2), (3, 1)])
     sort_mode = w.chance(0.3)
-    lines = gen_lines(w, tier, sort_mode, n_extra, encoding)
+    al = rng.stream("align")
+    align = None
+    if al.chance(0.03) and encoding != "utf-16":
+        # a line end exactly on (or one character beside) a power-of-two block boundary, far into the file
+        align = {"block": al.choice([4096, 8192, 8192, 65536, 65536, 65536, 32768, 16384, 131072]),
+                 "mult": al.choice([1, 1, 1, 2]), "delta": al.choice([0, 0, 0, -1, 1])}
+        if align["block"] * align["mult"] > 140000:
+            align["mult"] = 1
+    lines = gen_lines(w, tier, sort_mode, n_extra, encoding, align)
     applied: list[str] = []
     byte_faults = []
     if faulting:
@@ -284,7 +323,7 @@ def generate(rng: Prng, tier: str) -> dict:
             if s == 0 or fp.chance(0.5):
                 step["eio"] = round(fp.random(), 6) if fp.chance(0.85) else fp.choice([0.0, 1.0])
         steps.append(step)
-    return {"prop": PROP, "encoding": encoding, "lines": lines, "applied": applied,
+    return {"prop": PROP, "encoding": encoding, "lines": lines, "applied": applied, "align": align,
             "byte_faults": byte_faults, "steps": steps, "config": "faulting" if faulting else "fault_free"}
 
 
@@ -459,6 +498,8 @@ def execute(program: dict) -> dict:
     steps_done = 0
     with World() as world:
         world.put("a/file.swc", data)
+        if (program.get("align") or {}).get("done"):
+            world.probe("c02.line_end_aligned_to_block_boundary")
         for si, step in enumerate(program["steps"]):
             opts = dict(step["opts"])
             n_extra_cols = len(opts.get("extra_cols", []))
